@@ -345,6 +345,21 @@ func (rm *room) defaultPL(creator user) map[string]any {
 		pl["events"] = map[string]any{"m.room.message": 0, "m.reaction": sim.Pick(rm.t, []int{0, 50}), "m.room.topic": sim.Pick(rm.t, []int{0, 50})}
 		rm.r.Probe("room_with_defaults_above_moderators")
 	}
+	if rm.t.Chance(200) {
+		// a room in which low-level users may send power-levels events, with
+		// thresholds below the defaults they fall back to when removed: here
+		// every field comparison decides, not the right to send the event
+		ev, _ := pl["events"].(map[string]any)
+		ev["m.room.power_levels"] = sim.Pick(rm.t, []int{0, 10})
+		ev["org.example.thing"] = sim.Pick(rm.t, []int{0, 10, 20})
+		pl["notifications"] = map[string]any{"custom": sim.Pick(rm.t, []int{0, 10}), "org.example.here": sim.Pick(rm.t, []int{0, 20, 60}), "room": sim.Pick(rm.t, []int{50, 10})}
+		for _, u := range rm.users[1:] {
+			if !(rm.priv && rm.isCreator(u.id)) && rm.t.Chance(700) {
+				users[u.id] = sim.Pick(rm.t, []int{10, 20, 30})
+			}
+		}
+		rm.r.Probe("room_where_low_levels_send_power_levels")
+	}
 	return pl
 }
 
